@@ -55,9 +55,9 @@ SharedVerdict(o, c) ==
   ELSE LET d == BinDecode(o.out, CatOf(c))
        IN IF ~d.ok THEN "rejected: " \o d.why
           ELSE IF ~ForestEquiv(d.forest, c.forest) THEN "a Reader holding the shared tables recovers other values"
-          ELSE IF Len(d.lsts) # 1 THEN "output does not hold exactly one local symbol table"
-          ELSE IF ~ImportsDeclared(d.lsts[1], c) THEN "imports are not declared with name, version and max_id"
-          ELSE IF ~LocalsMinimal(d.lsts[1], c) THEN "local symbols are redundant, duplicated or unused"
+          ELSE IF Len(d.lsts) # (IF c.split > 0 THEN 2 ELSE 1) THEN "output does not hold exactly one local symbol table per batch"
+          ELSE IF \E k \in 1..Len(d.lsts) : ~ImportsDeclared(d.lsts[k], c) THEN "imports are not declared with name, version and max_id (in every batch)"
+          ELSE IF \E k \in 1..Len(d.lsts) : ~LocalsMinimal(d.lsts[k], c) THEN "local symbols are redundant, duplicated or unused"
           ELSE "ok"
 
 FixedVerdict(o, c) ==
